@@ -3,7 +3,7 @@ import copy
 import json
 
 from harness import grammar, render, tlc
-from harness.common import CANARY_BASE, Report, import_hpl, rng, split_canaries, tier
+from harness.common import CANARY_BASE, keep, Report, import_hpl, rng, split_canaries, tier
 from harness.corpus import sentences
 from harness.checks.c15 import subnodes
 from harness.drive import call_parser, exc_name
@@ -102,6 +102,7 @@ def run(replay=None):
         inputs.append(('property', 'after b {x > 0}: a causes c {y = 2} within ' + tb))
     inputs += EXTRA
     events, info = [], {}
+    inputs = [(e, t) for e, t in inputs if keep(t)]
     for i, (entry, text) in enumerate(inputs):
         ev = roundtrip(entry, text)
         ev['id'] = i + 1
